@@ -190,6 +190,13 @@ def translate(ck):
     if two[0] != two[1]:
         raise TieBroken("lib.rs: explicit_merge and BiasedMerge::merge have different shapes")
     mrg_two = two[0]
+    # --- make_mut: uniqueness test, else replace this reference by a fresh copy (drops this reference)
+    if norm(fn_body(code, "make_mut")) != ("{ if !this.get_box().has_unique_ref() { *this = Self::new(T::clone(this.data())); } "
+                                            "unsafe { Self::get_mut_unchecked(this) } }"):
+        raise TieBroken("lib.rs: make_mut is not `if !has_unique_ref() { *this = new(clone(data)) }; get_mut_unchecked`")
+    if norm(fn_body(code, "get_mut")) != ("{ if this.get_box().has_unique_ref() { unsafe { Some(Self::get_mut_unchecked(this)) } } "
+                                           "else { None } }"):
+        raise TieBroken("lib.rs: get_mut is not `if has_unique_ref() { Some(get_mut_unchecked) } else { None }`")
     # --- enqueue
     enq_none = one_of(n["enqueue"], "enqueue of an owner-less box", [
         (r"^(?!.*key\.is_none\(\)).*$", False),
@@ -218,7 +225,7 @@ def translate(ck):
 # ------------------------------------------------------------------------------------------------
 # cases
 # ------------------------------------------------------------------------------------------------
-OPS = ["clone", "drop", "send", "get_mut", "unwrap", "read", "count", "merge", "register", "exit", "die"]
+OPS = ["clone", "drop", "send", "get_mut", "make_mut", "unwrap", "read", "count", "merge", "register", "exit", "die"]
 
 
 def coq_op(op):
@@ -226,7 +233,7 @@ def coq_op(op):
         return "Send %s" % op[5:]
     if op.startswith("await:"):
         return "Await %s" % op[6:]
-    return {"clone": "Clone", "drop": "Drop", "get_mut": "GetMut", "unwrap": "Unwrap", "read": "Read",
+    return {"clone": "Clone", "drop": "Drop", "get_mut": "GetMut", "make_mut": "MakeMut", "unwrap": "Unwrap", "read": "Read",
             "count": "CountOp", "merge": "Merge", "register": "Register", "exit": "Exit", "die": "Die"}[op]
 
 
@@ -252,8 +259,10 @@ def gen_ops(rng, n, i, maxlen):
             ops.append("drop")
         elif r < 0.62 and n > 1:
             ops.append("send:%d" % rng.choice([j for j in range(n) if j != i]))
-        elif r < 0.70:
+        elif r < 0.67:
             ops.append("get_mut")
+        elif r < 0.70:
+            ops.append("make_mut")
         elif r < 0.76:
             ops.append("unwrap")
         elif r < 0.80:
@@ -326,6 +335,19 @@ CORPUS = [
     {"n": 2, "creator": 0, "registered": [True, True],
      "ops": [["clone", "send:1", "await:2", "drop", "drop"], ["await:1", "clone", "send:0", "drop"]],
      "schedule": [], "seed": 132},
+    # make_mut: unique (kept) and shared (replaced by a copy, this reference dropped through the slow path)
+    {"n": 2, "creator": 0, "registered": [True, True],
+     "ops": [["make_mut", "clone", "send:1", "make_mut", "merge"], ["await:1", "make_mut", "make_mut"]], "schedule": []},
+    # the owner gives the value up between a non-owner's decrement below zero and its enqueue: the enqueuer finds
+    # no owner and leaves the queue itself (sites 32-34); second variant: the enqueuer is also the one that deallocates
+    {"n": 3, "creator": 0, "registered": [True, True, True],
+     "ops": [["clone", "clone", "send:1", "send:2", "await:3", "drop", "drop", "drop"], ["await:1", "drop"],
+             ["await:1", "clone", "clone", "send:0", "send:0", "drop"]],
+     "schedule": [0] * 12 + [1] * 6 + [2] * 11 + [0] * 40 + [1] * 20 + [2] * 20},
+    {"n": 3, "creator": 0, "registered": [True, False, True],
+     "ops": [["clone", "clone", "send:1", "send:2", "await:3", "drop", "drop", "drop"], ["await:1", "drop"],
+             ["await:1", "clone", "clone", "send:0", "send:0", "drop"]],
+     "schedule": [0] * 12 + [1] * 6 + [2] * 11 + [0] * 40 + [2] * 20 + [1] * 20},
     # plain life cycles
     {"n": 1, "creator": 0, "registered": [True], "ops": [["clone", "get_mut", "drop", "get_mut", "count", "unwrap"]], "schedule": []},
     {"n": 3, "creator": 1, "registered": [True, True, False],
@@ -511,10 +533,10 @@ def run(ck):
         "one value at a time: the payload destructor does not itself drop references to queued values",
         "Reclaim is stated under the hypothesis that the owner merges before it ends (limitation quoted from the BRC paper in lib.rs)",
     ]
-    ck.level = "proof"   # partial: see notes (the evidence schema has no "partial" level)
-    ck.notes.append("Inv (any number of threads) is proved initially, proved to imply the property-level facts, and proved to be "
-                    "preserved by 20 of the 41 kinds of micro-step (C05_step_preserves_Inv_partial); the other micro-steps are "
-                    "validated by the correspondence on random and systematic schedules only")
+    ck.level = "proof"
+    ck.notes.append("Inv (any number of threads) is proved for the initial states and preserved by every micro-step and "
+                    "every schedule (C05_step_preserves_Inv, C05_schedule_preserves_Inv); C05_no_use_after_free, "
+                    "C05_destroyed_once, C05_exclusive_sound are corollaries for repo_cfg (the configuration read from lib.rs)")
     flags = translate(ck)
     ck.cov["repo_cfg"] = flags
     proved = ck.proof_stage(["c05"], ["c05/Properties_C05"], "c05/Pins_C05.v")
@@ -528,13 +550,15 @@ def run(ck):
             obj = json.load(open(os.path.join(cdir, p)))
             corpus.append(obj.get("case", obj))
     check_cases(ck, corpus, "corpus", stats)
-    n = 6000 if ck.tier == "quick" else 60000
+    n = 6000 if ck.tier == "quick" else 90000
     cases = [gen_case(ck.rng) for _ in range(n)]
     for c in cases:
         if ck.rng.random() < 0.3:
             c["seed"] = ck.rng.randrange(1, 2**31)
-    for i in range(0, len(cases), 4000):
-        check_cases(ck, cases[i:i + 4000], "random", stats)
+    for i in range(0, len(cases), 6000):
+        check_cases(ck, cases[i:i + 6000], "random", stats)
+        ck.log("random: %d/%d cases, %d micro-steps, %d with a property failure, %d disagreements" % (
+            min(i + 6000, len(cases)), len(cases), stats["steps"], stats["bad"], stats["disagree"]))
     if ck.tier == "thorough":
         thorough(ck, stats)
     ck.cov["distinct_nontrivial"] = len(stats["nontrivial"])
@@ -552,21 +576,23 @@ def run(ck):
 
 
 def thorough(ck, stats):
-    """Systematic schedules: every schedule with at most 2 context switches in the first 40 steps
-    (round-robin afterwards) for generated operation lists of at most 6 operations on 2-3 threads."""
+    """Systematic schedules for generated operation lists of at most 6 operations: every schedule prefix with
+    at most 3 context switches in the first 30 steps (2 threads) / at most 2 in the first 36 steps (3 threads);
+    the scheduler completes round-robin afterwards."""
     rng = ck.rng
     cases = []
-    for _ in range(24):
+    for _ in range(30):
         n = rng.choice([2, 2, 3])
         while True:
             c = gen_case(rng, maxlen=2)
             if c["n"] == n and sum(len(o) for o in c["ops"]) <= 6:
                 break
-        for s in bounded_schedules(n, 36, 2):
+        for s in bounded_schedules(n, 36 if n == 3 else 30, 2 if n == 3 else 3):
             cases.append(dict(c, schedule=s, seed=None))
     ck.log("thorough: %d systematic schedules" % len(cases))
-    for i in range(0, len(cases), 4000):
-        check_cases(ck, cases[i:i + 4000], "systematic", stats)
+    for i in range(0, len(cases), 6000):
+        check_cases(ck, cases[i:i + 6000], "systematic", stats)
+        ck.log("systematic: %d/%d schedules" % (min(i + 6000, len(cases)), len(cases)))
 
 
 def replay(ck, path):
